@@ -91,6 +91,10 @@ def replay(case):
                 m.add(ev["v"], arch_of(ev["a"], arches, rot), render_name(ev["r"], ev["form"], names), PATHS[ev["path"]],
                       SIGS[ev["sig"]], "package" if ev["cat"] == "invalid" else ev["cat"],
                       None if ev["srpm"] == "none" else render_name(ev["srpm"], ev["sform"], names))
+            elif ev["op"] == "del":
+                del m[ev["v"]]
+            elif ev["op"] == "reload":
+                m.loads(m.dumps())
             else:
                 from productmd.rpms import Rpms
                 m2 = Rpms()
@@ -100,6 +104,9 @@ def replay(case):
             out, exc = "refused", e
         except Exception as e:
             out, exc = type(e).__name__, e
+        if out != "ok" and ev["op"] in ("del", "reload") and m.rpms != before:
+            fails.append("step %d %s: failed with %s but changed the mapping" % (step, _ev(ev), out))
+            return fails
         if out != ev["out"]:
             if focus in ("C12", "C10", "C03"):
                 fails.append("step %d %s: model %s, code %s%s" % (step, _ev(ev), ev["out"], out,
@@ -174,4 +181,8 @@ def cycle(m, exp, attr, focus):
 def _ev(e):
     if e["op"] == "add":
         return "add(%s,%s,%s/%s,%s,%s,%s,srpm=%s/%s)" % (e["v"], e["a"], e["r"], e["form"], e["path"], e["sig"], e["cat"], e["srpm"], e["sform"])
+    if e["op"] == "del":
+        return "del[%s]" % e["v"]
+    if e["op"] == "reload":
+        return "loads(dumps())"
     return "load03(%d entries)" % len(e["doc"])
